@@ -81,6 +81,7 @@ type interp struct {
 	inInterferer    bool
 	interferePoints int
 	inInit          int
+	allowInit       *ssa.Package
 
 	// misc model state
 	clockN   int
@@ -123,6 +124,7 @@ func (in *interp) global(g *ssa.Global) *value {
 	}
 	if in.x.cfg.shouldInit(pkg.Pkg.Path()) && !in.inited[pkg] {
 		if initFn := pkg.Func("init"); initFn != nil {
+			in.allowInit = pkg
 			in.call(nil, token.NoPos, initFn, nil)
 		}
 	}
@@ -527,6 +529,9 @@ func (in *interp) callSSA(caller *frame, callpos token.Pos, fn *ssa.Function, ar
 	}
 	path := fnPkgPath(fn)
 	cfg := in.x.cfg
+	if r, ok := in.protoMethod(fn, args); ok {
+		return r
+	}
 	if kind, ok := cfg.Stubs[name]; ok {
 		in.x.mu.Lock()
 		in.x.stubsUsed[name+" => "+kind] = true
@@ -534,9 +539,13 @@ func (in *interp) callSSA(caller *frame, callpos token.Pos, fn *ssa.Function, ar
 		return zero(fn.Signature.Results())
 	}
 	if fn.Name() == "init" && fn.Signature.Recv() == nil && fn.Parent() == nil && fn.Pkg != nil && fn.Synthetic == "package initializer" {
-		if !cfg.shouldInit(path) || in.inited[fn.Pkg] {
+		// Package initialisers run lazily, when a global of the package is first
+		// touched (see global); the calls an initialiser makes to the initialisers
+		// of its imports are skipped for the same reason.
+		if in.allowInit != fn.Pkg || !cfg.shouldInit(path) || in.inited[fn.Pkg] {
 			return nil
 		}
+		in.allowInit = nil
 		in.inited[fn.Pkg] = true
 		in.initPackageGlobals(fn.Pkg)
 		in.inInit++
